@@ -17,7 +17,8 @@ META = {
              "callable conditioned later) on both sides of the dense/sparse switch (MIN_DIM_SPARSE lowered and dim 75/76)."),
     "note": ("Bounded rational lattices (dyadic scales, integer shapes, smooth integers under logarithms); that the documented "
              "formulas integrate to one is trusted mathematics; Gaussian cdf compared at scipy's integration accuracy; sparse "
-             "non-diagonal Gaussians refuse logpdf without cholmod (accepted); user-defined distributions not modelled."),
+             "non-diagonal Gaussians refuse logpdf without cholmod (accepted); user-defined distributions: pass-through of the "
+             "user's callable only."),
     "technique": "TLA+ spec (Families, SymLog) model-checked with TLC; TLC-emitted exact cases replayed into cuqi.distribution",
 }
 
@@ -123,7 +124,10 @@ def _eval_cdf(ctx, case, fam, way, d, dist, x, extra="", tol=(1e-9, 1e-12)):
     st, v, _ = fc.call(lambda: dist.cdf(np.array(x)))
     ctx.case(("cdf", fc.case_id(case), way, extra), facet="cdf")
     if st == "raise":
-        ctx.observations["cdf_raises"] = ctx.observations.get("cdf_raises", 0) + 1
+        # a cdf that refuses returns no wrong value: not a violation; counted per family / way so that it stays visible
+        ob = ctx.observations.setdefault("cdf_raises", {})
+        k = "%s/way=%s" % (fam, way)
+        ob[k] = ob.get(k, 0) + 1
         ctx.observations.setdefault("cdf_raises_example", "%s way=%s: %r" % (fam, way, v))
         return
     got = fc.scalar_of(v)
@@ -177,6 +181,28 @@ def check_family(ctx, un, case):
             continue
         if _eval_density(ctx, un, case, fam, way, d, dist, x):
             _eval_cdf(ctx, case, fam, way, d, dist, x)
+    if fam == "Normal":
+        check_userdefined(ctx, un, case)
+
+
+def check_userdefined(ctx, un, case):
+    """User-defined family: the documented density IS the user's callable.  logpdf / pdf / logd of a
+    UserDefinedDistribution wrapping  f(z) = E - |z - x|^2 / 2  (E = TLC's exact value of this case) at z = x."""
+    import cuqi
+    from cuqiverif import families_common as fc
+    d = case["dim"]
+    x = fc.vec(case["x"])
+    E = fc.expected_logpdf(case)
+    cls = getattr(cuqi.distribution, "UserDefinedDistribution", None)
+    if cls is None or not math.isfinite(E):
+        return
+    st, dist, _ = fc.call(lambda: cls(dim=d, logpdf_func=lambda z: E - 0.5 * float(np.sum((np.asarray(z, dtype=float) - x) ** 2))))
+    if st == "raise":
+        ctx.mismatch(_sig("construct", "UserDefined", "userdefined", d, case), case,
+                     "UserDefinedDistribution cannot be built from dim and logpdf_func: %r" % (dist,))
+        return
+    _eval_density(ctx, un, case, "UserDefined", "userdefined", d, dist, x, xforms=False,
+                  pkey=json.dumps([case.get("par"), case["x"]], sort_keys=True))
 
 
 # ------------------------------------------------------------------ Markov random fields
@@ -367,12 +393,12 @@ def run(ctx):
                     check_mrf(ctx, un, v)
                     n += 1
         else:
-            for c in fams[fam]:
+            for c in sorted(fams[fam], key=fc.case_id):      # canonical order (TLC's emission order is scheduling-dependent)
                 dispatch(ctx, un, c)
                 n += 1
     ctx.observations["cases_per_family"] = {f: len(v) for f, v in fams.items()}
     for f in ("Cauchy", "Gaussian", "GMRF"):
-        c = fams[f][len(fams[f]) // 2]
+        c = sorted(fams[f], key=fc.case_id)[len(fams[f]) // 2]
         ctx.sample({"fam": f, "dim": c["dim"], "par": c["par"], "x": c["x"], "logpdf": c["logpdf"], "cdf": c.get("cdf"),
                     "inputs": [(i["form"], i["shape"]) for i in c.get("inputs", [])][:20]})
     ctx.rule = ("one case per lattice point (family x parameter patterns incl. non-zero location x dim x evaluation point inside / "
